@@ -70,6 +70,8 @@ func runC06(c *Ctx) {
 			r.SawFn(p.ShortFn(f))
 			held := must.At(in)
 			isBroker := f.Signature.Recv() != nil && typeShort(f.Signature.Recv().Type()) == "eventlogger.Broker"
+			// (a helper of the package that every caller enters with the write lock held is as good as a method)
+			isBroker = isBroker || (PkgPathOf(f) == PkgRoot && !token.IsExported(f.Name()))
 			r.Check(isBroker && held["eventlogger.Broker.lock"] == 'W', "C06.who", p.ShortFn(f)+":"+what, p.InstrPos(in), "in a Broker method with Broker.lock held for writing",
 				what+" outside a Broker method or without Broker.lock held for writing (held: "+held.String()+")")
 		})
@@ -95,13 +97,13 @@ func runC06(c *Ctx) {
 			continue
 		}
 		hasStoreOrDelete := len(callsTo(f, func(n string, cc *ssa.CallCommon) bool {
-			return n == "(*eventlogger.graphMap).Store" || n == "(*eventlogger.graphMap).Delete"
+			return n == "(*eventlogger.graphMap).Store" || n == "(*eventlogger.graphMap).Delete" || setOpWrapper(cc.StaticCallee())
 		})) > 0
-		if !hasStoreOrDelete || (f.Signature.Recv() != nil && typeShort(f.Signature.Recv().Type()) == "eventlogger.graphMap") {
+		if !hasStoreOrDelete || setOpWrapper(f) || (f.Signature.Recv() != nil && typeShort(f.Signature.Recv().Type()) == "eventlogger.graphMap") {
 			continue
 		}
 		r.SawFn(p.ShortFn(f))
-		paths := c.enum("C06.paths", f, PathOpts{HeaderVisits: 2})
+		paths := c.enum("C06.paths", f, PathOpts{HeaderVisits: 2, Inline: inlineSetOpWrappers, InlineDepth: 1})
 		for _, pa := range paths {
 			if _, ok := pa.End.(*ssa.Return); !ok {
 				continue
@@ -251,7 +253,7 @@ func runC06(c *Ctx) {
 		if len(rel) == 0 {
 			continue
 		}
-		for _, pa := range c.enum("C06.paired", f, PathOpts{}) {
+		for _, pa := range c.enum("C06.paired", f, PathOpts{Inline: inlineSetOpWrappers, InlineDepth: 1}) {
 			if _, ok := pa.End.(*ssa.Return); !ok {
 				continue
 			}
@@ -512,7 +514,11 @@ func (c *Ctx) ruleReleaseTableAs(rule string) {
 			vt := tb.Of(st.Val)
 			if at.Op == "FieldAddr" && at.Name == "referenceCount" && vt.Op == "Bin" && vt.Name == "-" && vt.Args[1].Is("Const", "1") && vt.Args[0].Is("Field", "referenceCount") {
 				base := at.Args[0]
-				if base.Op == "Extract" && base.Args[0].Op == "Lookup" && base.Args[0].Args[0].Is("Field", "nodes") && base.Args[0].Args[1].Op == "Index" && base.Args[0].Args[1].Args[0].IsParam("1:ids") {
+				// (the entry of a comma-ok look-up, or of a plain one — the nil dereference of the latter is C04.selfsync's)
+				if base.Op == "Extract" && len(base.Args) == 1 {
+					base = base.Args[0]
+				}
+				if base.Op == "Lookup" && base.Args[0].Is("Field", "nodes") && base.Args[1].Op == "Index" && base.Args[1].Args[0].IsParam("1:ids") {
 					if full, _ := c.fullLoop(in, false); full {
 						// guarded by ok && count > 0
 						cond, tsucc, _ := condOf(in.Block().Idom())
@@ -1150,4 +1156,41 @@ func graphOfTypeCall(tb *Terms, t *Term) bool {
 		return false
 	}
 	return t.Args[0].IsParam("0:b") && t.Args[1].String() == "Field[EventType](Param(1:def))"
+}
+
+// setOpWrapper: a function of package eventlogger (not a method of graphMap) that does nothing but one
+// Store / Delete on the pipeline set of a graph it is handed — the callers own the pairing with the
+// reference counts, so the path rules look through it.
+func setOpWrapper(f *ssa.Function) bool {
+	if f == nil || f.Blocks == nil || len(f.Blocks) != 1 || f.Parent() != nil || PkgPathOf(f) != PkgRoot {
+		return false
+	}
+	if rc := f.Signature.Recv(); rc != nil && typeShort(rc.Type()) == "eventlogger.graphMap" {
+		return false
+	}
+	ops, other := 0, 0
+	for _, in := range f.Blocks[0].Instrs {
+		ci, ok := in.(ssa.CallInstruction)
+		if !ok {
+			continue
+		}
+		switch calleeName(ci.Common()) {
+		case "(*eventlogger.graphMap).Store", "(*eventlogger.graphMap).Delete":
+			ops++
+			fa, isFA := ci.Common().Args[0].(*ssa.FieldAddr)
+			if !isFA {
+				return false
+			}
+			if _, isPar := fa.X.(*ssa.Parameter); !isPar {
+				return false
+			}
+		default:
+			other++
+		}
+	}
+	return ops == 1 && other == 0
+}
+
+func inlineSetOpWrappers(caller *ssa.Function, call *ssa.Call, callee *ssa.Function) bool {
+	return setOpWrapper(callee)
 }
